@@ -93,7 +93,7 @@ func c09R1(c *Ctx) {
 			g[abbrevBinary(p.Render(rl.x)+" "+rl.op.String()+" "+p.Render(rl.y))] = true
 		}
 		val := abbrevBinary(p.Render(st.Val))
-		okV := addr == "L.Value" && g["L.Value.Tag == ValueUnknown"] && (strings.HasPrefix(val, "lang.Value{Tag: ValueArray") || strings.HasPrefix(val, "lang.Value{Tag: ValueObj"))
+		okV := addr == "L.Value" && g["L.Value.Tag == ValueUnknown"] && (isFreshArrayText(val) || isFreshObjectText(val))
 		c.check(okV, "R1", key, p.InstrPos(st), "auto-vivification of an unset variable only", "evalBinaryExpr stores "+val+" into "+addr+" on a path where the operand is not known to be an unset variable: a read modifies an existing value")
 	})
 	if n != 2 {
@@ -301,13 +301,13 @@ func classify(p *Program, r string, facts factSet, keyOK map[string]bool, kind m
 		keyOK["str"] = g["specObj.Value.Str != nil"]
 	case r == "lang.NewValue(*specObj.Value.Num)":
 		keyOK["num"] = g["specObj.Value.Num != nil"]
-	case strings.HasPrefix(r, "lang.Value{Tag: ValueObj"):
+	case isFreshObjectText(r):
 		for k := range g {
 			if strings.HasSuffix(k, ".Tag == ValueStr") {
 				kind["ValueStr"] = "object"
 			}
 		}
-	case strings.HasPrefix(r, "lang.Value{Tag: ValueArray"):
+	case isFreshArrayText(r):
 		for k := range g {
 			if strings.HasSuffix(k, ".Tag == ValueNum") {
 				kind["ValueNum"] = "array"
@@ -354,4 +354,15 @@ func memberResolutionOrder(c *Ctx, rule string) {
 	if n == 0 {
 		c.undecided(rule, "object-own-key-first", p.Pos(gm.Pos()), "no prototype lookup found in the object arm of GetMember")
 	}
+}
+
+// isFreshArrayText / isFreshObjectText: the rendering is that of a new empty array / object value,
+// written as the literal or through the constructor
+func isFreshArrayText(r string) bool {
+	r = strings.TrimPrefix(r, "val")
+	return strings.HasPrefix(r, "lang.Value{Tag: ValueArray, Array: [][:0]") || r == "lang.NewValue([][:0])" || r == "([][:0])" || r == "lang.NewArray()"
+}
+
+func isFreshObjectText(r string) bool {
+	return strings.HasPrefix(r, "lang.Value{Tag: ValueObj, Obj: &make(") || strings.HasPrefix(r, "lang.NewValue(make(map[") || strings.HasPrefix(r, "val(make(map[") || r == "lang.NewObject()"
 }
